@@ -74,8 +74,23 @@ template<class T> bool flag_and_idle(T& m) { return m.template is_flag_active<Id
 #else
 template<class T> bool flag_and_idle(T& m) { return m.template is_flag_active<Idle, typename T::Flag_AND>(); }
 #endif
+// a terminate state in one region AND an interrupt state in another, both active: the end-interrupt event must not get through -
+// "once the active state of any region is a terminate state, no subsequently submitted event causes any guard, action ... or state change" (C11)
+struct crash {};
+struct TI_ : state_machine_def<TI_> {
+  struct A0 : state<> {}; struct Dead : terminate_state<> {};
+  struct B0 : state<> {}; struct Int : interrupt_state<resume> {};
+  typedef mpl::vector<A0,B0> initial_state;
+  struct transition_table : mpl::vector< Row<A0,crash,Dead,Lg<'k'>,none>, Row<B0,crash,Int,Lg<'i'>,none>, Row<Int,resume,B0,Lg<'r'>,none>, Row<B0,go,none,Lg<'g'>,none> > {};
+  template<class F,class Ev> void no_transition(Ev const&,F&,int){ g_log += "NT "; }
+};
+typedef BE<TI_> TI;
 int main(int argc, char** argv) {
   if (argc > 1) g_only = argv[1];
+  { TI m; m.start(); m.process_event(crash()); const int a = cur(m,0), b = cur(m,1); g_log.clear();
+    m.process_event(resume()); m.process_event(go());
+    report("terminate-and-interrupt-both-active.end-interrupt-event-is-swallowed", g_log.empty() && cur(m,0) == a && cur(m,1) == b, "C11,C13",
+           "log=[" + g_log + "] ids " + std::to_string(a) + "," + std::to_string(b) + " -> " + std::to_string(cur(m,0)) + "," + std::to_string(cur(m,1))); }
   { M m; m.start(); g_log.clear(); m.process_event(kill()); g_log.clear();
     int r1 = (int)m.process_event(go()); int r2 = (int)m.process_event(e1(2)); int r3 = (int)m.process_event(resume()); int s0 = cur(m,0);
     report("terminate.swallows-everything", g_log.empty() && r1 == 1 && r2 == 1 && r3 == 1, "C11,C13", "log=[" + g_log + "] rets=" + std::to_string(r1) + std::to_string(r2) + std::to_string(r3) + " s0=" + std::to_string(s0)); }
